@@ -308,7 +308,7 @@ fn exercise_attribute(l: &L, key: &HMACKey, rep: &mut Report) {
         from_subject(&c)
     })
     .map(|back| {
-        if &back != l {
+        if back != crate::menu::expected_constructed(l) {
             rep.violate(format!("clone-reads-differently/{}", l.kind()), format!("{} vs {}", back.show(), l.show()), inp());
         } else {
             rep.nontrivial(&("attr", l));
@@ -416,6 +416,68 @@ fn extra_api(rep: &mut Report) {
             let ad = t::AdditionalAddressFamily::new(f);
             (r.family() == f, ad.family() == f, r.clone() == r, format!("{:?}{:?}", r, ad))
         });
+    }
+    // equality (and Debug / Clone) of every PAIR of values, in both operand orders, for the types that hold secrets or
+    // variable-length data: keys of every mechanism and length, integrity attributes built from them, algorithms with
+    // parameters of different lengths, lists of different lengths, blobs
+    {
+        let mut keys: Vec<(String, HMACKey)> = vec![];
+        for p in ["a", "ab", "abc", "p\u{e9}", "a-password-of-medium-length", &menu::rep('k', 64), &menu::rep('k', 65), &menu::rep('k', 200)] {
+            if let Ok(k) = HMACKey::new_short_term(p) {
+                keys.push((format!("short-term/{}", p.len()), k));
+            }
+            for alg in [AlgorithmId::MD5, AlgorithmId::SHA256] {
+                if let Ok(k) = HMACKey::new_long_term("user", "realm", p, Algorithm::from(alg)) {
+                    keys.push((format!("long-term-{:?}/{}", alg, p.len()), k));
+                }
+            }
+        }
+        for (na, a) in &keys {
+            for (nb, b) in &keys {
+                let inp = || json!({"api": "HMACKey ==", "left": na, "right": nb});
+                np("HMACKey::eq", "pair", &inp, rep, || {
+                    let same = a == b;
+                    let _ = a != b;
+                    let (ma, mb) = (MessageIntegrity::new(a.clone()), MessageIntegrity::new(b.clone()));
+                    let (sa, sb) = (MessageIntegritySha256::new(a.clone()), MessageIntegritySha256::new(b.clone()));
+                    let _ = (ma == mb, sa == sb, ma.clone() == ma, format!("{:?}{:?}", ma, sb).len());
+                    same == (a.as_bytes() == b.as_bytes())
+                })
+                .map(|consistent| {
+                    if !consistent {
+                        rep.violate("hmac-key-equality-disagrees-with-key-bytes", format!("{} vs {}", na, nb), inp());
+                    }
+                });
+            }
+        }
+        let params: Vec<Option<Vec<u8>>> = vec![None, Some(vec![]), Some(vec![1]), Some(vec![1, 2]), Some(vec![1, 2, 3, 4, 5]), Some(vec![9; 40])];
+        let algs: Vec<Algorithm> = [AlgorithmId::MD5, AlgorithmId::SHA256, AlgorithmId::from(0x7777u16)]
+            .into_iter()
+            .flat_map(|id| params.iter().map(move |p| Algorithm::new(id, p.as_deref())))
+            .collect();
+        for a in &algs {
+            for b in &algs {
+                let inp = || json!({"api": "Algorithm / PasswordAlgorithm ==", "left": format!("{:?}", a), "right": format!("{:?}", b)});
+                np("Algorithm::eq", "pair", &inp, rep, || {
+                    let (pa, pb) = (PasswordAlgorithm::new(a.clone()), PasswordAlgorithm::new(b.clone()));
+                    let la = PasswordAlgorithms::from(vec![pa.clone(), pb.clone()]);
+                    let lb = PasswordAlgorithms::from(vec![pb.clone()]);
+                    (a == b, pa == pb, la == lb, lb == la, la.clone() == la)
+                });
+            }
+        }
+        let lists: Vec<Vec<u16>> = vec![vec![], vec![1], vec![1, 2], vec![2, 1], (0..40).collect(), (0..41).collect()];
+        for a in &lists {
+            for b in &lists {
+                let inp = || json!({"api": "UnknownAttributes / Data ==", "left": a.len(), "right": b.len()});
+                np("UnknownAttributes::eq", "pair", &inp, rep, || {
+                    let (ua, ub) = (UnknownAttributes::from(a.as_slice()), UnknownAttributes::from(b.as_slice()));
+                    let (da, db) = (t::Data::new(&a.iter().map(|x| *x as u8).collect::<Vec<u8>>()), t::Data::new(&b.iter().map(|x| *x as u8).collect::<Vec<u8>>()));
+                    (ua == ub, ub == ua, da == db, db == da)
+                });
+            }
+        }
+        rep.sym("pairwise-equality");
     }
     for v in [0u64, 1, u32::MAX as u64, u64::MAX] {
         np("integer-attributes", "any", &none, rep, || {
@@ -830,7 +892,7 @@ pub fn run(ctx: &RunCtx) -> i32 {
         rep,
         Finish {
             level: "exploration",
-            rule: format!("{} strings (every string of length <=4 (thorough: <=5) over a {}-symbol alphabet incl. quotes, backslash, TAB, 2-/3-/4-byte and combining characters, plus every string of length <=3 (thorough <=4) over that alphabet widened by 13 normalisation-sensitive code points (NFC growing / shrinking, Hangul jamo, fullwidth, non-ASCII spaces, default-ignorables, DEL, NUL) containing at least one of them, those code points before / after / repeated at lengths around 127 / 254 / 508 / 763, plus lengths 507..510 and 762..764) through every string-taking constructor / conversion (UserName, Realm, Nonce, Nonce::new_nonce_cookie x 4 flag sets, Software, Padding, ErrorCode x 7 codes, UserHash, HMACKey short- and long-term x 3 positions x 4 algorithms) and the accessors and every comparison operator (against the value's own text and six other strings) of every value built, and of the value obtained by DECODING the same bytes as USERNAME / REALM / NONCE; every nonce 'obMatJos2' + 4 alphabet symbols + {} suffixes through is_nonce_cookie / security_features; every u16 through MessageType/MessageMethod/AttributeType/AlgorithmId/ErrorCode/IcmpCode conversions, every u8 through MessageClass/AddressFamily/IcmpType; every attribute of the menu (and decoded Unknown / integrity / fingerprint forms) through all 39 is_/as_ accessors, the matching expect_, attribute_type, Debug, Clone; build(k<=3).clone.mutate-either(j<=2).read-both for PasswordAlgorithms (2 construction routes), UnknownAttributes and the agent's StunAttributes against a Vec model; UnknownAttributes built from long shaped lists (ascending / descending runs of 0..=100 entries, a run followed by out-of-order or duplicate entries) by both routes, cloned, then extended on either copy by a smaller / inside / equal / larger value, against the list model. Non-trivial = distinct input for which a value was actually constructed and exercised", n_str, ALPHABET.len(), suffixes.len()),
+            rule: format!("{} strings (every string of length <=4 (thorough: <=5) over a {}-symbol alphabet incl. quotes, backslash, TAB, 2-/3-/4-byte and combining characters, plus every string of length <=3 (thorough <=4) over that alphabet widened by 13 normalisation-sensitive code points (NFC growing / shrinking, Hangul jamo, fullwidth, non-ASCII spaces, default-ignorables, DEL, NUL) containing at least one of them, those code points before / after / repeated at lengths around 127 / 254 / 508 / 763, plus lengths 507..510 and 762..764) through every string-taking constructor / conversion (UserName, Realm, Nonce, Nonce::new_nonce_cookie x 4 flag sets, Software, Padding, ErrorCode x 7 codes, UserHash, HMACKey short- and long-term x 3 positions x 4 algorithms) and the accessors and every comparison operator (against the value's own text and six other strings) of every value built, and of the value obtained by DECODING the same bytes as USERNAME / REALM / NONCE; every nonce 'obMatJos2' + 4 alphabet symbols + {} suffixes through is_nonce_cookie / security_features; every u16 through MessageType/MessageMethod/AttributeType/AlgorithmId/ErrorCode/IcmpCode conversions, every u8 through MessageClass/AddressFamily/IcmpType; every attribute of the menu (and decoded Unknown / integrity / fingerprint forms) through all 39 is_/as_ accessors, the matching expect_, attribute_type, Debug, Clone; equality of every PAIR of keys (8 passwords x 3 mechanisms), integrity attributes, algorithms (3 ids x 6 parameter lengths), lists and blobs in both operand orders; build(k<=3).clone.mutate-either(j<=2).read-both for PasswordAlgorithms (2 construction routes), UnknownAttributes and the agent's StunAttributes against a Vec model; UnknownAttributes built from long shaped lists (ascending / descending runs of 0..=100 entries, a run followed by out-of-order or duplicate entries) by both routes, cloned, then extended on either copy by a smaller / inside / equal / larger value, against the list model. Non-trivial = distinct input for which a value was actually constructed and exercised", n_str, ALPHABET.len(), suffixes.len()),
             assumptions: vec!["the documented expect_* panic on a type mismatch is not exercised".into()],
             required_symbols: vec!["string-constructors", "cookie-nonces", "scalar-sweeps", "attribute-accessors", "clone-sequences", "cookie-flags-roundtrip", "extra-api"],
             min_outcomes: 2,
